@@ -37,8 +37,10 @@ UpdRet(src, ret, yld, strategy) ==
 AllowedArg(p, strategy) ==
   LET annotated == ~IsAbs(p.src)  traced == ~IsAbs(p.traced)
       opt(t) == IF p.defnone THEN {Norm(t), Norm(OptionalOf(t))} ELSE {Norm(t)}
+      \* "an annotated parameter whose default is None is shown as Optional of its annotation"
+      kept(t) == IF p.defnone /\ ~IsOptionalT(t) THEN {Norm(OptionalOf(t))} ELSE {Norm(t)}
   IN  IF p.self THEN {TAbsent}                                   \* the receiver is never annotated (C12)
-      ELSE CASE strategy = "REPLICATE" -> IF annotated THEN opt(p.src) ELSE IF traced THEN opt(p.traced) ELSE {TAbsent}
+      ELSE CASE strategy = "REPLICATE" -> IF annotated THEN kept(p.src) ELSE IF traced THEN opt(p.traced) ELSE {TAbsent}
              [] strategy = "OMIT"      -> IF annotated THEN {TAbsent} ELSE IF traced THEN opt(p.traced) ELSE {TAbsent}
              [] strategy = "IGNORE"    -> IF traced THEN opt(p.traced)
                                           ELSE IF annotated THEN {TAbsent} \cup opt(p.src)   \* not stated either way
